@@ -1925,9 +1925,12 @@ func init() {
 			"leak scan needles: every 12-byte window of every token, e-mail, user name, group, nonce, CSRF state/nonce/verifier and of the cookie secret (6..11-byte strings whole); strings shorter than 6 bytes are not searched",
 		},
 		shards: func(tier string) int { return 16 },
-		run:    func(c *Ctx) { c02Main(c, nil) },
+		run:    func(c *Ctx) { concRunFor(c, "C02"); c02Main(c, nil) },
 		post:   c02ForgeryNonVacuity,
 		replay: func(c *Ctx, raw json.RawMessage) string {
+			if out, ok := concReplayFor(c, "C02", raw); ok {
+				return out
+			}
 			var cs c02Case
 			if err := json.Unmarshal(raw, &cs); err != nil || cs.Class == "" {
 				return "the recorded case is not an alteration case (leak / reuse findings are re-found by re-running the check)"
